@@ -17,6 +17,7 @@ EXPECT = {  # seed -> check expected to report it (DESIGN 10.5)
     "C02.4": "C02", "C06.4": "C17", "C07.4": "C07", "C09.4": "C04", "C16.4": "C16", "C17.4": "C17",
     "C04.5": "C07", "C05.5": "C01", "C10.5": "C10", "C12.5": "C12", "C15.5": "C15",
     "C03.6": "C17", "C06.6": "C01", "C08.6": "C08", "C13.6": "C04", "C14.6": "C14", "C16.6": "C16",
+    "C01.7": "C01", "C02.7": "C02", "C05.7": "C04", "C07.7": "C07", "C09.7": "C09", "C11.7": "C11", "C12.7": "C12", "C17.7": "C17",
     # C11.5 changes the nightly-only IFMA backend: it is caught by C11's thorough tier (ifma configuration), not by the quick tier replayed here
 }
 BENIGN = {  # benign mutant -> checks that must stay silent
@@ -25,7 +26,7 @@ BENIGN = {  # benign mutant -> checks that must stay silent
     "benign-C08-raw-sign-refactor": ["C08"], "benign-C06-step2-locals": ["C06", "C03"], "benign-C17-from-repr-vartime": ["C17"],
     "benign-C13-rename-reorder": ["C13"], "benign-C16-scalar-visitor": ["C16"], "benign-C03-step1": ["C03", "C06"],
     "C04-benign-mulbase-pow2": ["C04"], "benign-C07-ladder-while-let": ["C07"], "benign-C10-select-enumerate": ["C10", "C11"],
-    "benign-C13-explicit-loops": ["C13"], "benign-C03-double-reassoc": ["C03"], "benign-C07-ladder-step-commute": ["C07"], "benign-C06-decode-reassoc": ["C06"], "benign-C09-recompute-operators": ["C09"], "benign-C02-mont-mul-as-montgomery": ["C02"], "benign-C04-pippenger-sum-explicit": ["C04"], "benign-C01-load8-reorder": ["C01"], "benign-C01-as-bytes-q-loop": ["C01", "C11"],
+    "benign-C13-explicit-loops": ["C13"], "benign-C03-double-reassoc": ["C03"], "benign-C07-ladder-step-commute": ["C07"], "benign-C06-decode-reassoc": ["C06"], "benign-C09-recompute-operators": ["C09"], "benign-C02-mont-mul-as-montgomery": ["C02"], "benign-C04-pippenger-sum-explicit": ["C04"], "benign-C01-load8-reorder": ["C01"], "benign-C01-as-bytes-q-loop": ["C01", "C11"], "benign-C01-vkernel-mul-commute": ["C01"], "benign-C01-vkernel-reduce64-carry-order": ["C01", "C11"], "benign-C02-montred-u64-reorder": ["C02"], "benign-C03-sum-loop": ["C03"],
     # seed C08.2 (compute_challenge hashes min(len, 255) / ctx[..255]) was a violation on the pinned snapshot; the repair 01b199a rejects
     # contexts longer than 255 bytes before the challenge is computed, which makes the seed behaviour-preserving: it must now be silent
     "seed:C08.2": ["C09", "C08"],
@@ -38,7 +39,7 @@ def sh(*a, **k):
 
 
 def run_check(pid, wt=WT, cache=CACHE):
-    env = dict(os.environ, VERIF_REPO=wt, VERIF_CACHE=cache, VERIF_EVIDENCE_SUFFIX="")
+    env = dict(os.environ, VERIF_REPO=wt, VERIF_CACHE=cache, VERIF_EVIDENCE=cache + "-evidence")
     r = sh(V + "/check", pid, "--tier", "quick", env=env)
     viol = [l for l in r.stdout.splitlines() if " rule=" in l]
     return r.returncode, viol
@@ -46,9 +47,6 @@ def run_check(pid, wt=WT, cache=CACHE):
 
 def main():
     flt = re.compile(sys.argv[1]) if len(sys.argv) > 1 else None
-    bk = "/tmp/evidence-backup-seeds"
-    shutil.rmtree(bk, ignore_errors=True)
-    shutil.copytree(V + "/evidence", bk)
     jobs = []
     for sid, chk in sorted(EXPECT.items()):
         jobs.append(("seed " + sid, "%s/seeded/%s/patch.diff" % (V, sid), [chk], True))
@@ -100,14 +98,13 @@ def main():
         sh("git", "-C", wt, "checkout", "-q", "--", ".")
         sh("git", "-C", "/repo", "worktree", "remove", "--force", wt)
         shutil.rmtree(cache, ignore_errors=True)
+        shutil.rmtree(cache + "-evidence", ignore_errors=True)
     ths = [threading.Thread(target=worker, args=(k,)) for k in range(WORKERS)]
     for t in ths:
         t.start()
     for t in ths:
         t.join()
     rows.sort()
-    shutil.rmtree(V + "/evidence", ignore_errors=True)
-    shutil.copytree(bk, V + "/evidence")
     with open(V + "/selftest/RESULTS.md", "w") as fh:
         fh.write("# Checks against the stored seeded changes and self-mutants\n\nGenerated by tools/run_seeds.py (scratch worktree, quick tier). "
                  "`reported` = the check exits 1 with VIOLATION lines; seeds / mutants must be reported, `benign` edits must be silent.\n\n| change | check | result | verdict / first report |\n|---|---|---|---|\n")
